@@ -2258,8 +2258,28 @@ def layers(T, d):
                 continue
             if c.func.attr == "update" and len(c.args) == 1 and \
                     not c.keywords:
-                events.append((wrap(("all", src(T.term(c.args[0], n))), c,
-                                    None), n))
+                at = T.term(c.args[0], n)
+                ai = at[2] if at[0] == "new" else at
+                layer = None
+                # d.update({k: v for k, v in M.items() if k in d}): the
+                # entries of M whose key is already present
+                if ai[0] == "dictcomp" and len(ai[2]) == 1:
+                    it_, conds_ = ai[2][0]
+                    E_ = ("elem", it_)
+                    if it_[0] == "items" and plain(ai[1]) == (
+                            "pair", ("comp", plain(E_), 0),
+                            ("comp", plain(E_), 1)):
+                        cs_ = [split_cond(c_, True) for c_ in conds_]
+                        cs_ = [x for y in cs_ for x in y]
+                        if not cs_:
+                            layer = ("all", src(it_))
+                        elif [(plain(t_), p_) for t_, p_ in cs_] == [
+                                (("cmp", "In", ("comp", plain(E_), 0),
+                                  plain(d)), True)]:
+                            layer = ("present", src(it_))
+                if layer is None:
+                    layer = ("all", src(at))
+                events.append((wrap(layer, c, None), n))
             elif c.func.attr in ("get", "items", "keys", "values", "copy",
                                  "iteritems", "iterkeys", "itervalues",
                                  "__contains__", "__getitem__"):
